@@ -36,6 +36,7 @@ class ClientAuthenticator:
         self.protocol = protocol
         self.unixFDSupport = self._usesUnixSocketTransport(self.protocol)
         self.guid = None
+        self.negotiatingUnixFD = False  # NEGOTIATE_UNIX_FD sent, no answer yet
         self.cookie_dir = None  # used for testing only
 
         self.authOrder = self.preference[:]
@@ -119,12 +120,14 @@ class ClientAuthenticator:
         else:
             if self.unixFDSupport:
                 self.sendAuthMessage(b'NEGOTIATE_UNIX_FD')
+                self.negotiatingUnixFD = True
             else:
                 self.sendAuthMessage(b'BEGIN')
                 self.authenticated = True
 
     def _auth_AGREE_UNIX_FD(self, line):
-        if self.unixFDSupport:
+        if self.unixFDSupport and self.negotiatingUnixFD:
+            self.negotiatingUnixFD = False
             self.sendAuthMessage(b'BEGIN')
             self.authenticated = True
         else:
@@ -173,7 +176,14 @@ class ClientAuthenticator:
             'Authentication mechanism failed: '
             + line.decode("ascii", "replace")
         )
-        self.authTryNextMethod()
+        if self.negotiatingUnixFD:
+            # The server accepted us (OK) but does not do descriptor
+            # passing: carry on without it
+            self.negotiatingUnixFD = False
+            self.sendAuthMessage(b'BEGIN')
+            self.authenticated = True
+        else:
+            self.authTryNextMethod()
 
     # -------------------------------------------------
 
